@@ -1072,12 +1072,36 @@ impl SparqlDatabase {
 
                     let object_raw = object_tokens.join(" ");
 
-                    // Handle annotation syntax {| ... |}
-                    let (object_part, annotations) = if let Some(ann_start) = object_raw.find("{|")
+                    // Handle annotation syntax {| ... |}. The text of a literal object is data:
+                    // an annotation can only start after the literal's closing quote.
+                    let annotation_search_from = if object_raw.starts_with('"') {
+                        let mut escaped = false;
+                        let mut end = object_raw.len();
+                        for (index, character) in object_raw.char_indices().skip(1) {
+                            if escaped {
+                                escaped = false;
+                            } else if character == '\\' {
+                                escaped = true;
+                            } else if character == '"' {
+                                end = index + 1;
+                                break;
+                            }
+                        }
+                        end
+                    } else {
+                        0
+                    };
+                    let (object_part, annotations) = if let Some(ann_start) = object_raw
+                        [annotation_search_from..]
+                        .find("{|")
+                        .map(|offset| offset + annotation_search_from)
                     {
                         let obj = object_raw[..ann_start].trim().to_string();
 
-                        if let Some(ann_end) = object_raw.find("|}") {
+                        if let Some(ann_end) = object_raw[ann_start..]
+                            .find("|}")
+                            .map(|offset| offset + ann_start)
+                        {
                             let ann_content = object_raw[ann_start + 2..ann_end].trim();
                             let ann_parts: Vec<&str> =
                                 ann_content.splitn(2, char::is_whitespace).collect();
